@@ -39,8 +39,17 @@
 //! cache has no injectable clock, so for it TTL ops are skipped (TTL stays `None`); the statistics
 //! cache with limit 0 is checked to be disabled (`None`) and the case ends.
 //!
-//! PROBES
-//! (filled below)
+//! Sensitivity probes (tools/mkpatch + tools/mutrun, `./check C40 quick`, all on datafusion/execution/src/cache/):
+//!   1. default_cache.rs `put`: overwrite does not subtract the old value size (DESIGN probe)
+//!      -> VIOLATION after 4 cases: "after Put{k:1,vs:1} (twice): memory_used() = 2, Σ of entries = 1".
+//!   2. default_cache.rs `update_cache_limit` without `evict_entries()` (DESIGN probe)
+//!      -> VIOLATION after 1 case: "after Limit{q:0}: len() = 1, model has 0 entries".
+//!   3. cache_manager.rs `CachedFileMetadataEntry::is_valid_for` ignores `last_modified`
+//!      -> VIOLATION after 13 cases: "is_valid_for accepted a value cached for (size 101, mtime 0) although the file now is (size 101, mtime 1000)".
+//!   4. default_cache.rs `contains_key` uses `lru_queue.get` (refreshes recency) instead of `peek`
+//!      -> VIOLATION after 21 cases: wrong eviction victim ("key 2 missing from list_entries(); model keys [2]").
+//!   5. default_cache.rs `contains_key`: expiry test `now >= exp` instead of `now > exp`
+//!      -> VIOLATION after 1296 cases: "after Advance{100}, Contains{k:0}: contains_key returned false, model true".
 use chrono::{DateTime, TimeZone, Utc};
 use datafusion_common::arrow::datatypes::{DataType, Field, Schema};
 use datafusion_common::instant::Instant;
